@@ -450,6 +450,22 @@ class MarkFeatureWriter(BaseFeatureWriter):
         newDefs = []
         for markAnchorName, glyphAnchorPairs in sorted(markGlyphSets.items()):
             className = ast.makeFeaClassName(classPrefix + markAnchorName)
+            existing = currentClasses.get(className)
+            if existing is not None and any(
+                glyphName in existing.glyphs
+                and not self._anchorsAreEqual(
+                    ast.Anchor(
+                        x=otRoundIgnoringVariable(anchor.x),
+                        y=otRoundIgnoringVariable(anchor.y),
+                    ),
+                    existing.glyphs[glyphName].anchor,
+                )
+                for glyphName, anchor in glyphAnchorPairs.items()
+            ):
+                # some mark glyph is already defined in this markClass with a
+                # different anchor: define all the marks of this group in a new
+                # unique markClass, so that none is left behind in the old one
+                className = ast.makeFeaClassName(className, currentClasses)
             for glyphName, anchor in glyphAnchorPairs.items():
                 mcd = self._defineMarkClass(
                     glyphName, anchor.x, anchor.y, className, currentClasses
